@@ -1,5 +1,6 @@
 import MindsVerif.Lemmas.PlanQ
 import MindsVerif.Lemmas.Catalog
+import MindsVerif.Lemmas.PlanSizes
 /-!
 # C09 — every emitted plan is a well-formed, forward-only dataflow program
 
@@ -31,16 +32,23 @@ on every run by the obligation `pin:add_plan_step-variant-repaired` of `tools/pr
   `C09_join_unrepaired` (the invariant held outside the fall-through class `¬ noFallThrough`),
   `C09_regress_unrepaired_plan`, `C09_regress_unrepaired_{1,2,3}` (what it emitted inside that class), and
   `C09_regress_repaired_plan`, `C09_regress_repaired_{1,3}` (what the live variant emits for the same inputs).
-* Round 5 — the CATALOG look-ups (`Model/Catalog.lean`: registration of a predictor-metadata entry in its three forms,
+* Round 5 / 6 — the CATALOG look-ups (`Model/Catalog.lean`: registration of a predictor-metadata entry in its three forms,
   `integration_name`, `timeseries`, `order_by_column`, `group_by_columns`, `window`, `to_predict`, an integration's `type`,
-  each over absent / `None` / booleans / numbers / strings / lists / `{}`), which choose the skeleton:
-  `C09_catalog` (for every variant `fx` of the code, every record whose `integration_name` is absent / `None` / the project
-  and that meets the restrictions `ShapeOK fx` the variant still has, every metadata form, every catalog-sensitive
-  statement, from every well-formed plan: a well-formed plan or a user-level error), `C09_catalog_total` (with the
-  repairs `fixes/C09_r5_1…3.diff` there is NO restriction: `C09_catalog_full CatFix.repaired`), `C09_catalog_live`
-  (the code as it is, under `ShapeOK CatFix.live`), `C09_catalog_not_full_live` + `C09_witness_r5_*` (the code as it is
-  raises `KeyError` / `AttributeError` / `TypeError` outside `ShapeOK`: known findings KF-C09-8…11), `C09_integration`.
-  Which variant the library follows is decided on every run by the correspondence stream `catalog`.
+  each over absent / `None` / booleans / numbers / strings / lists / `{}`), which choose the skeleton.  The code as it is
+  (`CatFix.live`, after the repairs e4d7787, 08911cf, d8a610a, 88dbd1a; pinned by `pin:catalog-lookups-variant-live`):
+  `C09_catalog_total : C09_catalog_full CatFix.live` — for every record whose `integration_name` is absent / `None` / the
+  project and whose other keys are absent or hold ANY value, every metadata form, every catalog-sensitive statement, from
+  every well-formed plan: a well-formed plan or a user-level error; `C09_integration_total`.  `C09_catalog` is the same for any
+  variant `fx` under the restrictions `ShapeOK fx` it still has.  History (FORMER code, `CatFix.former`):
+  `C09_catalog_former` (held under `ShapeOK CatFix.former`), `C09_regress_catalog_former_not_full`, `C09_regress_r5_*`
+  (the former code raised `KeyError` / `AttributeError` / `TypeError`: KF-C09-8…11, fixed) and the live code on the same inputs.
+* Round 6 — several models with per-model `USING <alias>.partition_size = n`, several partitions in one plan
+  (`Model/PlanSizes.lean`): `C09_sizes_not_consulted` (for EVERY size assignment the live join planner is the planner of
+  `Model/Plan.lean`: a partitionable step joins the open partition whatever size it asks for), hence `C09_join_sizes` (C09 for
+  every join tree × size assignment); `C09_split_stale_plan` / `C09_split_stale_witness` (HYPOTHETICAL, not live code: closing
+  the open partition for a model with another size while its step keeps the dataframe it was built with emits a
+  `MapReduceStep` on `Result('1_1')`, a sub-result of another container) and the same feature done right (`splitFresh`) as
+  `decide`d examples.  Pinned by `pin:partition-sizes-not-consulted` on the stream `partition_sizes`.
 -/
 namespace MindsVerif.Props.C09
 open MindsVerif.Plan
@@ -242,7 +250,7 @@ example : stepsOK 0 (addStep [⟨.fetch, some (.top 0), [], []⟩]
       ⟨.mapreduce, none, [.top 0], [⟨.apply, some (.sub 1 0), [.top 0]⟩]⟩).length = 2 :=
   C09_add_step _ _ rfl (Or.inl rfl) (by decide) (by decide)
 
-/-! ### round 5: catalog record SHAPES (`Model/Catalog.lean`) -/
+/-! ### round 5 / 6: catalog record SHAPES (`Model/Catalog.lean`) -/
 
 /-- the total-function property of the catalog look-ups for variant `fx` of the code: for every predictor-metadata
 record `r` of the documented domain (`integration_name` absent, `None` or the project's name; every other key absent or
@@ -259,22 +267,26 @@ theorem C09_catalog (fx : CatFix) (form : Form) (proj pns : Name) (r : Rec) (q :
     (hok : stepsOK 0 plan = true) : C09_body (planCat fx form proj pns r q) plan :=
   body_of_good (planCat_good fx form proj pns r q hp hns hs) plan (Nat.zero_le _) hok
 
-/-- **with the repairs `fixes/C09_r5_1…3.diff` the catalog look-ups are total on the whole documented domain** -/
-theorem C09_catalog_total : C09_catalog_full CatFix.repaired :=
-  fun form proj pns r q plan hp hns hok => C09_catalog CatFix.repaired form proj pns r q plan hp hns rfl hok
-
-/-- **the code as it is**: C09 holds on the records of the shape the happy path expects (`ShapeOK CatFix.live`: a string /
-defaulted namespace; a time-series model has a string `order_by_column`, a present sized `group_by_columns`, a present
-`window`; `to_predict` is absent, `None`, a string or a non-empty list) -/
-theorem C09_catalog_live (form : Form) (proj pns : Name) (r : Rec) (q : CQ) (plan : List Step)
-    (hp : lowerName pns = lowerName proj) (hns : NsOK proj r = true) (hs : ShapeOK CatFix.live form r = true)
-    (hok : stepsOK 0 plan = true) : C09_body (planCat CatFix.live form proj pns r q) plan :=
-  C09_catalog CatFix.live form proj pns r q plan hp hns hs hok
+/-- **the code as it is: the catalog look-ups are total on the whole documented domain** -/
+theorem C09_catalog_total : C09_catalog_full CatFix.live :=
+  fun form proj pns r q plan hp hns hok => C09_catalog CatFix.live form proj pns r q plan hp hns rfl hok
 
 /-- an integration given as a dict: the constructor's `type` read, then a statement shipped whole -/
 theorem C09_integration (fx : CatFix) (r : IRec) (plan : List Step) (h : (fx.itype || (r.get .type).isSome) = true)
     (hok : stepsOK 0 plan = true) : C09_body (planIntegration fx r) plan :=
   body_of_good (planIntegration_good fx r h) plan (Nat.zero_le _) hok
+
+/-- the code as it is: every integration dict -/
+theorem C09_integration_total (r : IRec) (plan : List Step) (hok : stepsOK 0 plan = true) :
+    C09_body (planIntegration CatFix.live r) plan := C09_integration CatFix.live r plan rfl hok
+
+/-- **History (former code)**: C09 held on the records of the shape the happy path expected (`ShapeOK CatFix.former`: a
+string / defaulted namespace; a time-series model has a string `order_by_column`, a present sized `group_by_columns`, a
+present `window`; `to_predict` is absent, `None`, a string or a non-empty list) -/
+theorem C09_catalog_former (form : Form) (proj pns : Name) (r : Rec) (q : CQ) (plan : List Step)
+    (hp : lowerName pns = lowerName proj) (hns : NsOK proj r = true) (hs : ShapeOK CatFix.former form r = true)
+    (hok : stepsOK 0 plan = true) : C09_body (planCat CatFix.former form proj pns r q) plan :=
+  C09_catalog CatFix.former form proj pns r q plan hp hns hs hok
 
 /-- `"proj"`, `"t"`, `"g"`, `"y"` -/
 def nProj : Name := [112, 114, 111, 106]
@@ -291,41 +303,49 @@ def qPlain : CQ := .modelJoin ⟨nT, .none, none, false, true, false⟩
 def recTS : Rec := [(.integrationName, .str nProj), (.timeseries, .bool true), (.orderBy, .str nT),
   (.groupBy, .strs [nG]), (.window, .num 5)]
 
-/-- KF-C09-8 (code as it is): a time-series model whose record has no `window` → `KeyError` -/
-theorem C09_witness_r5_1 : ¬ C09_body (planCat CatFix.live .list nProj nProj
-    [(.integrationName, .str nProj), (.timeseries, .bool true), (.orderBy, .str nT), (.groupBy, .strs [nG])] qLatest) [] := by decide
-/-- KF-C09-8: `order_by_column: None` → `AttributeError`; `group_by_columns: False` → `TypeError`;
-`timeseries: True` on a record without any setting → `KeyError` -/
-theorem C09_witness_r5_1b : ¬ C09_body (planCat CatFix.live .legacy nProj nProj
-    [(.timeseries, .bool true), (.orderBy, .null), (.groupBy, .strs [nG]), (.window, .num 5)] qLatest) [] := by decide
-theorem C09_witness_r5_1c : ¬ C09_body (planCat CatFix.live .list nProj nProj
-    [(.timeseries, .bool true), (.orderBy, .str nT), (.groupBy, .bool false), (.window, .num 5)] qLatest) [] := by decide
-theorem C09_witness_r5_1d : ¬ C09_body (planCat CatFix.live .list nProj nProj [(.timeseries, .num 1)] qPlain) [] := by decide
-/-- KF-C09-9: a model that reports no target (`to_predict: []`) joined with a table → `AttributeError` -/
-theorem C09_witness_r5_2 : ¬ C09_body (planCat CatFix.live .list nProj nProj
-    [(.integrationName, .str nProj), (.toPredict, .strs [])] qPlain) [] := by decide
-/-- KF-C09-10: `integration_name: None` (list form) → `AttributeError` in the constructor; a dotted legacy name
-without `integration_name` → `KeyError` -/
-theorem C09_witness_r5_3 : ¬ C09_body (planCat CatFix.live .list nProj nProj [(.integrationName, .null)] qPlain) [] := by decide
-theorem C09_witness_r5_3b : ¬ C09_body (planCat CatFix.live .dotted nProj nProj [] (.modelSelect false true)) [] := by decide
-/-- KF-C09-11: an integration dict without `type` → `KeyError` in the constructor -/
-theorem C09_witness_r5_4 : ¬ C09_body (planIntegration CatFix.live [(.classType, .str [115, 113, 108])]) [] := by decide
+/-! regression theorems: the FORMER code (KF-C09-8 … 11, fixed by e4d7787, 08911cf, d8a610a, 88dbd1a) vs the live code -/
 
-/-- hence the code as it is does NOT have the total-function property (it does on `ShapeOK`: `C09_catalog_live`) -/
-theorem C09_catalog_not_full_live : ¬ C09_catalog_full CatFix.live :=
-  fun h => C09_witness_r5_2 (h .list nProj nProj _ qPlain [] rfl (by decide) rfl)
+def r5_1 : Rec := [(.integrationName, .str nProj), (.timeseries, .bool true), (.orderBy, .str nT), (.groupBy, .strs [nG])]
+def r5_1b : Rec := [(.timeseries, .bool true), (.orderBy, .null), (.groupBy, .strs [nG]), (.window, .num 5)]
+def r5_1c : Rec := [(.timeseries, .bool true), (.orderBy, .str nT), (.groupBy, .bool false), (.window, .num 5)]
+def r5_2 : Rec := [(.integrationName, .str nProj), (.toPredict, .strs [])]
 
-/-- the same inputs with the repairs: a user-level error or a plan -/
-example : C09_body (planCat CatFix.repaired .list nProj nProj
-    [(.integrationName, .str nProj), (.timeseries, .bool true), (.orderBy, .str nT), (.groupBy, .strs [nG])] qLatest) [] := by decide
-example : C09_body (planCat CatFix.repaired .list nProj nProj [(.integrationName, .str nProj), (.toPredict, .strs [])] qPlain) [] := by decide
-example : C09_body (planCat CatFix.repaired .dotted nProj nProj [] (.modelSelect false true)) [] := by decide
-example : C09_body (planIntegration CatFix.repaired [(.classType, .str [115, 113, 108])]) [] := by decide
+/-- KF-C09-8 (former code): a time-series model whose record has no `window` → `KeyError` -/
+theorem C09_regress_r5_1 : ¬ C09_body (planCat CatFix.former .list nProj nProj r5_1 qLatest) [] := by decide
+/-- KF-C09-8 (former code): `order_by_column: None` → `AttributeError`; `group_by_columns: False` → `TypeError`;
+`timeseries: 1` on a record without any setting → `KeyError` -/
+theorem C09_regress_r5_1b : ¬ C09_body (planCat CatFix.former .legacy nProj nProj r5_1b qLatest) [] := by decide
+theorem C09_regress_r5_1c : ¬ C09_body (planCat CatFix.former .list nProj nProj r5_1c qLatest) [] := by decide
+theorem C09_regress_r5_1d : ¬ C09_body (planCat CatFix.former .list nProj nProj [(.timeseries, .num 1)] qPlain) [] := by decide
+/-- KF-C09-9 (former code): a model that reports no target (`to_predict: []`) joined with a table → `AttributeError` -/
+theorem C09_regress_r5_2 : ¬ C09_body (planCat CatFix.former .list nProj nProj r5_2 qPlain) [] := by decide
+/-- KF-C09-10 (former code): `integration_name: None` (list form) → `AttributeError` in the constructor; a dotted legacy
+name without `integration_name` → `KeyError` -/
+theorem C09_regress_r5_3 : ¬ C09_body (planCat CatFix.former .list nProj nProj [(.integrationName, .null)] qPlain) [] := by decide
+theorem C09_regress_r5_3b : ¬ C09_body (planCat CatFix.former .dotted nProj nProj [] (.modelSelect false true)) [] := by decide
+/-- KF-C09-11 (former code): an integration dict without `type` → `KeyError` in the constructor -/
+theorem C09_regress_r5_4 : ¬ C09_body (planIntegration CatFix.former [(.classType, .str [115, 113, 108])]) [] := by decide
+
+/-- hence the former code did NOT have the total-function property (it had on `ShapeOK`: `C09_catalog_former`) -/
+theorem C09_regress_catalog_former_not_full : ¬ C09_catalog_full CatFix.former :=
+  fun h => C09_regress_r5_2 (h .list nProj nProj _ qPlain [] rfl (by decide) rfl)
+
+/-- the LIVE code on the same inputs: a user-level error (settings refused) or a plan -/
+theorem C09_regress_r5_live :
+    (planCat CatFix.live .list nProj nProj r5_1 qLatest [] = .error (.planning "no window setting")) ∧
+    C09_body (planCat CatFix.live .legacy nProj nProj r5_1b qLatest) [] ∧
+    C09_body (planCat CatFix.live .list nProj nProj r5_1c qLatest) [] ∧
+    C09_body (planCat CatFix.live .list nProj nProj [(.timeseries, .num 1)] qPlain) [] ∧
+    ((planCat CatFix.live .list nProj nProj r5_2 qPlain []).toOption.map (fun r => (r.1.length, r.2)) = some (3, .top 2)) ∧
+    C09_body (planCat CatFix.live .list nProj nProj [(.integrationName, .null)] qPlain) [] ∧
+    ((planCat CatFix.live .dotted nProj nProj [] (.modelSelect false true) []).toOption.map (fun r => (r.1.length, r.2)) = some (1, .top 0)) ∧
+    C09_body (planIntegration CatFix.live [(.classType, .str [115, 113, 108])]) [] := by
+  refine ⟨rfl, ?_, ?_, ?_, ?_, ?_, ?_, ?_⟩ <;> decide
 
 /-- `group_by_columns: None` describes an ungrouped time-series model — in BOTH variants it reads as "no groups" (the
 seeded change C09_10 broke exactly this; the stream `catalog` compares it on every run) -/
 example : (tsSettings CatFix.live ((.groupBy, .null) :: recTS)).toOption = some ⟨nT, []⟩ := by decide
-example : (tsSettings CatFix.repaired ((.groupBy, .null) :: recTS)).toOption = some ⟨nT, []⟩ := by decide
+example : (tsSettings CatFix.former ((.groupBy, .null) :: recTS)).toOption = some ⟨nT, []⟩ := by decide
 /-- … and the plan is the ungrouped one: fetch, apply, join -/
 example : ((planCat CatFix.live .list nProj nProj ((.groupBy, .null) :: recTS) qLatest) []).toOption =
     some ([⟨.fetch, some (.top 0), [], []⟩, ⟨Kind.applyTS, some (.top 1), [.top 0], []⟩,
@@ -334,10 +354,55 @@ example : ((planCat CatFix.live .list nProj nProj ((.groupBy, .null) :: recTS) q
 example : ((planCat CatFix.live .list nProj nProj recTS qLatest) []).toOption.map (fun r => (r.1.length, r.2)) =
     some (4, .top 3) := by decide
 
-/-- non-vacuity: the hypotheses of `C09_catalog_live` are met by the complete record (and by a plain model) -/
-example : NsOK nProj recTS = true ∧ ShapeOK CatFix.live .list recTS = true := by decide
-example : ShapeOK CatFix.live .dotted [(.integrationName, .str nProj), (.toPredict, .strs [nY])] = true := by decide
+/-- non-vacuity: the hypotheses of `C09_catalog_total` / `C09_catalog_former` are met by the complete record -/
+example : NsOK nProj recTS = true ∧ ShapeOK CatFix.former .list recTS = true := by decide
+example : ShapeOK CatFix.former .dotted [(.integrationName, .str nProj), (.toPredict, .strs [nY])] = true := by decide
 example : C09_body (planCat CatFix.live .list nProj nProj recTS qLatest) [] :=
-  C09_catalog_live .list nProj nProj recTS qLatest [] rfl (by decide) (by decide) rfl
+  C09_catalog_total .list nProj nProj recTS qLatest [] rfl (by decide) rfl
+
+/-! ### round 6: per-model `USING <alias>.partition_size = n` (`Model/PlanSizes.lean`) -/
+
+/-- **the sizes are not consulted** (the code as it is): for every size assignment, join tree, clause set and plan, the join
+planner with per-model partition sizes is the join planner of `Model/Plan.lean` — a partitionable step joins the open
+partition whatever size it asks for; with no partition open only `partition_size is not None` matters -/
+theorem C09_sizes_not_consulted (sizes : Nat → Nat) (t : JT) (wrap : Bool) (params : List SNum) :
+    planJoinZ .joinOpen sizes t wrap params = planJoin true t wrap params := planJoinZ_joinOpen sizes t wrap params
+
+/-- **T9.2 with per-model USING options**: every join tree × every size assignment (any number of models, equal or
+different sizes, any number of partitions in the plan) -/
+theorem C09_join_sizes (sizes : Nat → Nat) (t : JT) (wrap : Bool) (params : List SNum) (plan : List Step)
+    (hok : stepsOK 0 plan = true) (ht : TreeOK plan.length t) (hp : params.all (refOKTop plan.length) = true) :
+    C09_body (planJoinZ .joinOpen sizes t wrap params) plan := by
+  rw [C09_sizes_not_consulted]; exact C09_join t wrap params plan hok ht hp
+
+/-- `t JOIN m1 b JOIN m2 c USING b.partition_size = 10, c.partition_size = 20` -/
+def w2m : JT := .join (.join (.leaf (.table false [] [])) (.leaf (.predictor false true))) (.leaf (.predictor false true))
+
+/-- the live code: one partition holds both models -/
+example : (planJoinZ .joinOpen (sizesOf [0, 10, 20]) w2m false [] []).toOption = some (
+    [⟨.fetch, some (.top 0), [], []⟩,
+     ⟨.mapreduce, some (.top 1), [.top 0],
+       [⟨.apply, some (.sub 1 0), [.top 0]⟩, ⟨.join, some (.sub 1 1), [.top 0, .sub 1 0]⟩,
+        ⟨.apply, some (.sub 1 2), [.sub 1 1]⟩, ⟨.join, some (.sub 1 3), [.sub 1 1, .sub 1 2]⟩]⟩], .top 1) := by decide
+
+/-- HYPOTHETICAL (seeded change C09_11, not live code): a second partition is opened for the model with another size, but its
+step — built before the close — and the new `MapReduceStep` keep `Result('1_1')`, a sub-result of the closed partition -/
+theorem C09_split_stale_plan : (planJoinZ .splitStale (sizesOf [0, 10, 20]) w2m false [] []).toOption = some (
+    [⟨.fetch, some (.top 0), [], []⟩,
+     ⟨.mapreduce, some (.top 1), [.top 0],
+       [⟨.apply, some (.sub 1 0), [.top 0]⟩, ⟨.join, some (.sub 1 1), [.top 0, .sub 1 0]⟩]⟩,
+     ⟨.mapreduce, some (.top 2), [.sub 1 1],
+       [⟨.apply, some (.sub 2 0), [.sub 1 1]⟩, ⟨.join, some (.sub 2 1), [.top 1, .sub 2 0]⟩]⟩], .top 2) := by decide
+
+theorem C09_split_stale_witness : ¬ C09_body (planJoinZ .splitStale (sizesOf [0, 10, 20]) w2m false []) [] := by decide
+
+/-- the same feature with the step re-read from the stack after the close is well formed (two partitions in one plan) -/
+example : C09_body (planJoinZ .splitFresh (sizesOf [0, 10, 20]) w2m false []) [] := by decide
+/-- equal sizes: the hypothetical variants do what the live code does -/
+example : (planJoinZ .splitStale (sizesOf [0, 10, 10]) w2m false [] []).toOption =
+    (planJoinZ .joinOpen (sizesOf [0, 10, 10]) w2m false [] []).toOption := by decide
+/-- non-vacuity of `C09_join_sizes` -/
+example : C09_body (planJoinZ .joinOpen (sizesOf [0, 10, 20]) w2m true []) [] :=
+  C09_join_sizes _ w2m true [] [] rfl ⟨⟨rfl, trivial⟩, trivial⟩ rfl
 
 end MindsVerif.Props.C09
